@@ -11,7 +11,7 @@ Open Scope list_scope.
 Fixpoint erase (s : ssel) {struct s} : psel :=
   match s with
   | SanField a n ty _ sub => PField a n ty ((fix go (l : list ssel) := match l with [] => [] | x :: r => erase x :: go r end) sub)
-  | SanFrag c _ sub => PInline c ((fix go (l : list ssel) := match l with [] => [] | x :: r => erase x :: go r end) sub)
+  | SanFrag c _ _ sub => PInline c ((fix go (l : list ssel) := match l with [] => [] | x :: r => erase x :: go r end) sub)
   end.
 Lemma erase_go sub : (fix go (l : list ssel) := match l with [] => [] | x :: r => erase x :: go r end) sub = map erase sub.
 Proof. induction sub as [|x r IH]; cbn [map]; [reflexivity|]. rewrite IH. reflexivity. Qed.
@@ -21,14 +21,14 @@ Proof. cbn [erase]. rewrite erase_go. reflexivity. Qed.
 Section ssel_ind2.
   Variable P : ssel -> Prop.
   Hypothesis HField : forall a n ty d sub, Forall P sub -> P (SanField a n ty d sub).
-  Hypothesis HFrag : forall c o sub, Forall P sub -> P (SanFrag c o sub).
+  Hypothesis HFrag : forall c o d sub, Forall P sub -> P (SanFrag c o d sub).
   Fixpoint ssel_ind2 (s : ssel) : P s :=
     match s with
     | SanField a n ty d sub =>
         HField a n ty d sub ((fix go (l : list ssel) : Forall P l :=
                                 match l with [] => Forall_nil _ | x :: t => Forall_cons x (ssel_ind2 x) (go t) end) sub)
-    | SanFrag c o sub =>
-        HFrag c o sub ((fix go (l : list ssel) : Forall P l :=
+    | SanFrag c o d sub =>
+        HFrag c o d sub ((fix go (l : list ssel) : Forall P l :=
                           match l with [] => Forall_nil _ | x :: t => Forall_cons x (ssel_ind2 x) (go t) end) sub)
     end.
 End ssel_ind2.
@@ -41,14 +41,14 @@ Fixpoint plain (s : ssel) {struct s} : bool :=
       | [] => true
       | _ => negb (is_root ty) && (fix all (l : list ssel) := match l with [] => true | x :: r => plain x && all r end) sub
       end
-  | SanFrag _ _ _ => false
+  | SanFrag _ _ _ _ => false
   end.
 Lemma plain_all sub : (fix all (l : list ssel) := match l with [] => true | x :: r => plain x && all r end) sub = forallb plain sub.
 Proof. induction sub as [|x r IH]; cbn [forallb]; [reflexivity|]. rewrite IH. reflexivity. Qed.
 Lemma plain_field a n ty d x sub : plain (SanField a n ty d (x :: sub)) = negb (is_root ty) && forallb plain (x :: sub).
 Proof. cbn [plain]. rewrite plain_all. reflexivity. Qed.
 
-Definition is_sfield (s : ssel) : bool := match s with SanField _ _ _ _ _ => true | SanFrag _ _ _ => false end.
+Definition is_sfield (s : ssel) : bool := match s with SanField _ _ _ _ _ => true | SanFrag _ _ _ _ => false end.
 
 Lemma add_to_result_plain s new : forallb plain s = true -> forallb plain new = true -> forallb plain (add_to_result s new) = true.
 Proof.
@@ -70,7 +70,7 @@ Qed.
 Lemma san_sel_plain tm sc : forall s ip result scr,
   plain s = true -> forallb plain result = true -> forallb plain (fst (san_sel tm sc ip s (result, scr))) = true.
 Proof.
-  induction s as [a n ty d sub IH|c o sub IH] using ssel_ind2; intros ip result scr Hp Hr.
+  induction s as [a n ty d sub IH|c o fd sub IH] using ssel_ind2; intros ip result scr Hp Hr.
   - destruct sub as [|y sub'].
     + cbn [san_sel fst]. apply add_to_result_plain; [exact Hr|]. cbn [forallb]. rewrite Hp. reflexivity.
     + rewrite san_sel_field. rewrite plain_field in Hp. apply andb_true_iff in Hp as [Hroot Hsub].
@@ -105,7 +105,7 @@ Qed.
 (* a fragment-free selection without root-typed fields has the shape the planner theorems ask for *)
 Lemma plain_frag_ok tm : forall s, plain s = true -> frag_ok tm (erase s) = true.
 Proof.
-  induction s as [a n ty d sub IH|c o sub IH] using ssel_ind2; intros Hp.
+  induction s as [a n ty d sub IH|c o fd sub IH] using ssel_ind2; intros Hp.
   - rewrite erase_field. destruct sub as [|y sub']; [reflexivity|]. rewrite plain_field in Hp. apply andb_true_iff in Hp as [Hroot Hsub].
     cbn [map]. rewrite frag_field. unfold frags_ok, level_ok. rewrite Hroot. cbn [andb].
     assert (Hf : forallb is_field (erase y :: map erase sub') = true).
